@@ -198,11 +198,12 @@ fn plan_for(id: &str, tier: Tier) -> Plan {
       if q {
         gens.push(g(Family::Gen, cfg_with(Family::Gen, &red_f, &[0, 1], true, Some(vec![0, 2, 3, 5, 7, 8])), 2, 3, 1, "all ordered pairs of reduced G-gen (finals A,CAPSLOCK,LEFTSHIFT; repeat Normal/Disabled; outputs [],[LEFTSHIFT,X],[A],[LEFTSHIFT,A],[LEFTSHIFT],[X,Y])"));
       } else {
-        gens.push(g(Family::Gen, full_cfg(Family::Gen), 2, 3, 1, "all ordered pairs of G-gen"));
-        gens.push(g(Family::Dist, full_cfg(Family::Dist), 2, 3, 1, "all ordered pairs of G-dist"));
+        gens.push(g(Family::Gen, cfg_with(Family::Gen, &red_f, &[0, 1, 2], true, None), 2, 3, 1, "all ordered pairs of G-gen with finals A,CAPSLOCK,LEFTSHIFT (all ten output forms, all repeat modes, every absorbing subset)"));
+        gens.push(g(Family::Dist, cfg_with(Family::Dist, &red_f, &[0, 1, 2], true, None), 2, 3, 1, "all ordered pairs of G-dist with finals A,CAPSLOCK,LEFTSHIFT (all seven output forms, all repeat modes, every absorbing subset)"));
+        gens.push(g(Family::Gen, cfg_with(Family::Gen, &[B], &[0], true, Some(vec![0, 2, 3, 5, 7, 8])), 2, 3, 1, "pairs with final B (the only final that can have A as another trigger key), Normal"));
         gens.push(g(Family::Gen, triple_cfg(Family::Gen, &[0], vec![0, 1, 2, 3, 7]), 3, 3, 1, "all ordered triples of a reduced G-gen (finals A,CAPSLOCK,LEFTSHIFT with at most one other trigger key; Normal; outputs [],[X],[LEFTSHIFT,X],[A],[LEFTSHIFT])"));
         gens.push(g(Family::Gen, triple_cfg(Family::Gen, &[1], vec![0, 2, 3]), 3, 3, 0, "all ordered triples of the same trigger menu, Disabled, outputs [],[LEFTSHIFT,X],[A]"));
-        gens.push(g(Family::Gen, cfg_with(Family::Gen, &red_f, &[0, 1], true, Some(vec![0, 2, 3, 5, 7, 8])), 2, 8, 2, "reduced G-gen pairs with no bound on held keys, two foreign keys of each class"));
+        gens.push(g(Family::Gen, cfg_with(Family::Gen, &red_f, &[0, 1], true, Some(vec![0, 2, 3, 7])), 2, 6, 1, "reduced G-gen pairs (outputs [],[LEFTSHIFT,X],[A],[LEFTSHIFT]) with no bound on held keys (6-key alphabet)"));
         gens.push(g(Family::Gen, deep_cfg(Family::Gen, &[0, 1], true), 2, 4, 0, "pairs with up to three other trigger keys (finals B, A), N=4"));
       }
       let req: Vec<&'static str> = match id {
@@ -220,7 +221,7 @@ fn plan_for(id: &str, tier: Tier) -> Plan {
         gens.push(g(Family::Dist, deep_cfg(Family::Dist, &[0], false), 2, 4, 0, "non-absorbing Normal pairs with up to three other trigger keys (finals B, A), N=4"));
       } else {
         gens.push(g(Family::Dist, cfg_with(Family::Dist, &all_f, &[0, 1, 2], false, None), 2, 4, 1, "all ordered non-absorbing pairs of G-dist, N=4"));
-        gens.push(g(Family::Dist, cfg_with(Family::Dist, &all_f, &[0, 1], false, None), 2, 8, 1, "non-absorbing pairs of G-dist (Normal/Disabled) with no bound on held keys"));
+        gens.push(g(Family::Dist, cfg_with(Family::Dist, &all_f, &[0, 1], false, None), 2, 6, 1, "non-absorbing pairs of G-dist (Normal/Disabled) with no bound on held keys (6-key alphabet)"));
         gens.push(g(Family::Dist, { let mut c = triple_cfg(Family::Dist, &[0, 1], vec![0, 1, 2, 3, 4]); c.absorbing = false; c }, 3, 3, 0, "all ordered non-absorbing triples of a reduced G-dist (finals A,CAPSLOCK,LEFTSHIFT, at most one other trigger key, Normal/Disabled)"));
         gens.push(g(Family::Dist, deep_cfg(Family::Dist, &[0, 1], false), 2, 4, 1, "non-absorbing pairs with up to three other trigger keys (finals B, A), N=4"));
       }
@@ -251,7 +252,7 @@ fn plan_for(id: &str, tier: Tier) -> Plan {
         gens.push(g(Family::Gen, cfg_with(Family::Gen, &red_f, &[0, 1], true, Some(vec![0, 1, 2, 3, 5, 6, 7, 9])), 2, 3, 1, "ordered pairs of reduced G-gen with an absorbing mapping"));
         gens.push(g(Family::Dist, triple_cfg(Family::Dist, &[0], vec![0, 2, 3, 4]), 3, 3, 0, "ordered triples of a reduced G-dist (at most one other trigger key, Normal) with an absorbing mapping"));
         gens.push(g(Family::Dist, deep_cfg(Family::Dist, &[0], true), 2, 4, 0, "pairs with up to three other trigger keys and every absorbing subset (finals B, A), N=4"));
-        gens.push(g(Family::Dist, cfg_with(Family::Dist, &red_f, &[0, 1], true, None), 2, 8, 1, "reduced G-dist pairs with no bound on held keys"));
+        gens.push(g(Family::Dist, cfg_with(Family::Dist, &red_f, &[0, 1], true, None), 2, 6, 1, "reduced G-dist pairs with no bound on held keys (6-key alphabet)"));
       }
       Plan { need: Need::Absorbing, gens, required_antecedents: vec!["C08_absorbing_mapping_fired", "C08_press_while_absorbed", "C08b_nonmod_press_while_absorbed", "C08c_trigger_repressed", "C08d_unabsorbed_modifier_counts"], rule: String::new() }
     }
